@@ -31,7 +31,9 @@ RULE = (
     "around the origin (1-d: +-sep/2) with radii equal up to 0.6 tol and neighbour separation min(m*tol, R0/4), m "
     "log-spaced in 12..1e4 (pairs between tol and sqrt(tol) apart with equal norms). Oracle: labels by construction -> one output point per cluster, "
     "bitwise equal to the first-occurring member, ordered by first occurrence, new_2_old / old_2_new exact; "
-    "fracs.utils.uniquify_points additionally maps edges and deletes point edges; intersect_sets on members split "
+    "fracs.utils.uniquify_points additionally maps edges and deletes point edges; fracs.utils.linefractures_to_pts_edges on "
+    "2-d line fractures running between generated points of different clusters (points = first-visited end point of "
+    "each cluster, edges = cluster numbers); intersect_sets on members split "
     "into two sets = same-cluster relation. (uniquify_int) integer columns, tol < 0.5 = first-occurrence unique "
     "columns. (ismember) column sets with 1..4 rows (or 1-d arrays), int64 / int32 / float64 (halves), value domains "
     "{0..3}, {-4..4}, {-5..-1}, anchors up to +-1e9, +-2^31, 2^40, +-2^62 with offsets; b mixes fresh columns with "
@@ -55,10 +57,14 @@ ASSUMPTIONS = [
     "clusters have diameter <= tol/57 and mutual distance >= 10 tol (checked by the harness on every case)",
     "ismember_columns / intersect_sets are called with non-empty a (b may be empty for intersect_sets, as SparseNdArray does)",
     "intersect_sets tolerances are never within rounding of an attainable distance",
+    "linefractures_to_pts_edges: end points of different clusters differ in some coordinate by more than 3*(tol + 1e-5*max|x|) "
+    "(the function compares with np.allclose(atol=tol), i.e. numpy's default rtol=1e-5 on top); fractures have end points "
+    "that LineFracture accepts as distinct",
     "ismember_columns: a and b share one dtype (int64 as annotated, int32, or float64 with exactly representable values)",
 ]
-FNS = ["uniquify", "uniquify_points", "uniquify_int", "ismember", "intersect_int", "intersect_float"]
-REQUIRED = {f: 0.08 for f in FNS}
+FNS = ["uniquify", "uniquify_points", "uniquify_int", "ismember", "intersect_int", "intersect_float", "linefractures"]
+REQUIRED = {f: 0.07 for f in FNS}
+REQUIRED.update({"linefractures-shared-endpoints": 0.015, "linefractures-origin-cluster": 0.004})
 REQUIRED.update({"close-norms": 0.15, "interleaved": 0.15, "dim1": 0.05, "dim2": 0.1, "dim3": 0.1,
                  "first-not-smallest-norm": 0.05, "ismember-sort": 0.03, "ismember-nosort": 0.03,
                  "ismember-1d": 0.01, "equal-norm-clusters": 0.08, "separation-below-sqrt-tol": 0.04,
@@ -113,8 +119,8 @@ def _sphere_spec(draw, dim, tol, R0):
 
 
 @st.composite
-def _cluster_spec(draw, min_dim=1):
-    dim = draw(st.integers(min_dim, 3))
+def _cluster_spec(draw, min_dim=1, max_dim=3, origin_choices=(False, False, False, True)):
+    dim = draw(st.integers(min_dim, max_dim))
     tol = draw(st.sampled_from(TOLS))
     R0 = draw(st.sampled_from([0.5, 1.0, 1.0, 3.0, 10.0]))
     if draw(st.sampled_from([False, False, True])):
@@ -127,7 +133,7 @@ def _cluster_spec(draw, min_dim=1):
     for d, cls in keys:
         a = draw(st.sampled_from(A_NEAR)) if cls == "near" else A_FAR[int(cls[-1])]
         clusters.append({"dir": d, "a": a, "members": draw(st.lists(offs, min_size=1, max_size=4))})
-    origin = draw(st.sampled_from([False, False, False, True]))
+    origin = draw(st.sampled_from(list(origin_choices)))
     if origin:
         clusters.append({"dir": -1, "a": 0.0, "members": draw(st.lists(offs, min_size=1, max_size=3))})
     n = sum(len(c["members"]) for c in clusters)
@@ -200,6 +206,11 @@ def _spec(draw):
         s["edges"] = draw(st.lists(st.lists(st.integers(0, n - 1), min_size=2, max_size=2).flatmap(
             lambda e: st.lists(st.integers(0, 5), min_size=ntag, max_size=ntag).map(lambda t: e + t)),
             min_size=1, max_size=6))
+    elif fn == "linefractures":
+        # end points of 2-d line fractures: fracture k runs between two generated points (of different clusters)
+        s = draw(_cluster_spec(min_dim=2, max_dim=2, origin_choices=(False, True)))
+        n = len(s["order"])
+        s["edges"] = draw(st.lists(st.lists(st.integers(0, n - 1), min_size=2, max_size=2), min_size=2, max_size=10))
     elif fn == "intersect_float":
         s = draw(_cluster_spec())
         n = len(s["order"])
@@ -340,7 +351,7 @@ def check(s):
     labels = [fn]
     nontrivial = False
 
-    if fn in ("uniquify", "uniquify_points", "intersect_float"):
+    if fn in ("uniquify", "uniquify_points", "intersect_float", "linefractures"):
         P, L = _build(s)
         tol = s["tol"]
         _verify_separation(P, L, tol)
@@ -392,6 +403,36 @@ def check(s):
         labels.append("point-edge" if np.any(is_pt) else "no-point-edge")
         require_equal(ue, mapped[:, ~is_pt], "uniquify-points-edges", "uniquify_points: edges")
         require_equal(np.ravel(deleted), np.where(is_pt)[0], "uniquify-points-deleted", "uniquify_points: deleted edges")
+    elif fn == "linefractures":
+        from porepy.fracs import utils as fu
+
+        # a fracture has two clearly distinct end points (LineFracture rejects end points that np.isclose takes for equal)
+        E = [e for e in s["edges"] if L[e[0]] != L[e[1]] and not np.all(np.isclose(P[:, e[0]], P[:, e[1]], rtol=1e-3, atol=1e-6))]
+        if not E:
+            return {"labels": labels + ["linefractures-none"], "nontrivial": False}
+        seq = np.array(E, dtype=int).ravel()  # order in which the end points are visited
+        # the comparison in linefractures_to_pts_edges is np.allclose(atol=tol) with numpy's default relative tolerance
+        # 1e-5 on top; "far apart" is therefore taken relative to both: end points of different clusters differ in some
+        # coordinate by more than 3 * (tol + 1e-5 * largest coordinate), otherwise the case is not judged
+        Q, LQ = P[:, seq], L[seq]
+        gap = np.abs(Q[:, :, None] - Q[:, None, :]).max(axis=0)
+        other = LQ[:, None] != LQ[None, :]
+        if np.any(other) and gap[other].min() <= 3 * (tol + 1e-5 * float(np.abs(Q).max())):
+            return {"labels": labels + ["linefractures-not-judged-rtol"], "nontrivial": False}
+        fr = [pp.LineFracture(np.array(P[:, e])) for e in E]
+        pts, edges = fu.linefractures_to_pts_edges(fr, tol)
+        f_seq, o2n_seq = _expected_partition(L[seq])
+        if f_seq.size < seq.size:
+            labels.append("linefractures-shared-endpoints")
+        if any(c["dir"] < 0 for c in s["clusters"]) and np.any(np.linalg.norm(P[:, seq], axis=0) < 10 * tol):
+            labels.append("linefractures-origin-cluster")
+        require(pts.shape[1] == f_seq.size, "linefractures-count",
+                lambda: f"{pts.shape[1]} points returned for end points in {f_seq.size} clusters (tol={tol:g})")
+        require_equal(pts, P[:, seq[f_seq]], "linefractures-representative",
+                      "linefractures_to_pts_edges: points are not the first-occurring end point of each cluster")
+        require_equal(edges[:2], o2n_seq.reshape(-1, 2).T, "linefractures-edges",
+                      "linefractures_to_pts_edges: edges do not link the fractures to their end-point clusters")
+        nontrivial = len(E) >= 2
     elif fn == "intersect_float":
         in_a = np.array(s["in_a"], dtype=bool)
         A, B = P[:, in_a], P[:, ~in_a]
